@@ -206,7 +206,7 @@ type known struct {
 
 func loadKnown() []known {
 	var ks []known
-	f, err := os.Open(filepath.Join(Root, "known_findings.jsonl"))
+	f, err := os.Open(filepath.Join(Root, "known_findings.txt"))
 	if err != nil {
 		return nil
 	}
@@ -215,11 +215,27 @@ func loadKnown() []known {
 	sc.Buffer(make([]byte, 1<<20), 1<<20)
 	for sc.Scan() {
 		line := strings.TrimSpace(sc.Text())
-		if line == "" || strings.HasPrefix(line, "#") {
+		// known: property=<id> signature=<sig> <what fails>
+		// fixed: property=<id> <commit> <what failed>        (suppresses nothing)
+		if !strings.HasPrefix(line, "known:") {
 			continue
 		}
+		fl := strings.Fields(strings.TrimPrefix(line, "known:"))
 		var k known
-		if json.Unmarshal([]byte(line), &k) == nil {
+		k.Status = "known"
+		var rest []string
+		for _, w := range fl {
+			switch {
+			case strings.HasPrefix(w, "property=") && k.Property == "":
+				k.Property = strings.TrimPrefix(w, "property=")
+			case strings.HasPrefix(w, "signature=") && k.Signature == "":
+				k.Signature = strings.TrimPrefix(w, "signature=")
+			default:
+				rest = append(rest, w)
+			}
+		}
+		k.What = strings.Join(rest, " ")
+		if k.Property != "" && k.Signature != "" {
 			ks = append(ks, k)
 		}
 	}
